@@ -93,6 +93,16 @@ def evaluate(case: dict) -> dict:
             tracer.executed_in_presence_predicate(a1, b1, 0)
         else:
             tracer.executed_compare_predicate(a1, b1, 0, PynguinCompare[kind])
+            if kind in ("IN", "NOT_IN") and hasattr(tracer, "executed_membership_outcome"):
+                # the instrumentation places a second probe behind a membership test: the subject's own
+                # operation runs in between (here: on the very same objects) and its result is passed on;
+                # when the operation raises, the second probe is never reached
+                try:
+                    subject = (a1 in b1) if kind == "IN" else (a1 not in b1)
+                except BaseException:  # noqa: BLE001
+                    pass
+                else:
+                    tracer.executed_membership_outcome(subject, 0)
     except BaseException as ex:  # noqa: BLE001
         raised, raised_exc = True, type(ex).__name__
     calls_tracer = sorted(set(V.LOG))
